@@ -736,6 +736,7 @@ func init() {
 		return b
 	}
 	suites["hooks"] = suite{gen: func(r *rand.Rand, n int, emit func(string)) {
+		emit("reset") // the ops are stateless; the reset only separates them from another suite's history in a combined run
 		emit("hk.const")
 		for done := 0; done < n; done++ {
 			switch x := r.Intn(40); {
